@@ -3667,6 +3667,10 @@ static Value eval_call(ASTNode *node, Environment *env) {
         env_define_var(env, func->params[i].name, func->params[i].type, false, param_value);
     }
 
+    /* The body sees its own frame and the globals, not the callers' locals */
+    int old_frame_base = env->frame_base;
+    env->frame_base = old_symbol_count;
+
     /* Execute function body */
     Value result = create_void();
     for (int i = 0; i < func->body->as.block.count; i++) {
@@ -3753,6 +3757,7 @@ static Value eval_call(ASTNode *node, Environment *env) {
         }
     }
     env->symbol_count = old_symbol_count;
+    env->frame_base = old_frame_base;
 
     return return_value;
 }
@@ -4710,6 +4715,10 @@ bool run_shadow_tests(ASTNode *program, Environment *env, bool verbose) {
         }
     }
 
+    /* What is defined so far is global; the shadow tests run above it */
+    env->globals_end = env->symbol_count;
+    env->frame_base = env->symbol_count;
+
     /* Second pass: Register all enum definitions so they're available in shadow tests */
     for (int i = 0; i < program->as.program.count; i++) {
         ASTNode *item = program->as.program.items[i];
@@ -4851,6 +4860,10 @@ bool run_program(ASTNode *program, Environment *env) {
         }
     }
 
+    /* What is defined so far is global */
+    env->globals_end = env->symbol_count;
+    env->frame_base = env->symbol_count;
+
     /* Second pass: execute all other top-level items (functions, statements, etc.) */
     for (int i = 0; i < program->as.program.count; i++) {
         ASTNode *item = program->as.program.items[i];
@@ -4986,6 +4999,10 @@ Value call_function(const char *name, Value *args, int arg_count, Environment *e
         env_define_var(env, func->params[i].name, func->params[i].type, false, param_value);
     }
 
+    /* The body sees its own frame and the globals, not the callers' locals */
+    int original_frame_base = env->frame_base;
+    env->frame_base = original_symbol_count;
+
     /* Execute the function body */
     Value result = eval_statement(func->body, env);
 
@@ -5013,6 +5030,7 @@ Value call_function(const char *name, Value *args, int arg_count, Environment *e
         }
     }
     env->symbol_count = original_symbol_count;
+    env->frame_base = original_frame_base;
 
     return return_value;
 }
